@@ -189,7 +189,13 @@ def run(prop, tier, seed, t0):
         return plan.fail_build(prop, failed)
     cb = plan.dispatch_variants(bins)
     tasks = []
-    groups = [(1, 2, 3, 8), (64,), (5, 33)] if q else [(1, 2, 3, 8), (64,), (200,), (5, 33), (16, 100), (7, 129), (256,)] * 8
+    # batch sizes: small ones, powers of two and the 190-term switch of the variable-time code, plus sizes drawn from the
+    # seed in every range (an implementation may change its buffer strategy at a size nobody wrote down)
+    import random as _r
+    rs = _r.Random(seed * 7919 + 17)
+    drawn = (rs.randrange(9, 64), rs.randrange(65, 128), rs.randrange(129, 190), rs.randrange(191, 400))
+    groups = ([(1, 2, 3, 8), (64,), (5, 33), (127, 128), (190,), drawn[:2], drawn[2:]] if q else
+              [(1, 2, 3, 8), (64,), (200,), (5, 33), (16, 100), (7, 129), (256,), (127, 128), (190, 191), drawn[:2], drawn[2:], (512,)] * 8)
     for i, sz in enumerate(groups):
         for c in cb:
             tasks.append(('vlib.props.c14', 'task', prop, seed * 1000 + i, 6 if q else 60, [c], {'sizes': sz}))
